@@ -231,7 +231,7 @@ def run(rep, tier):
     rep.cov["distinct_nontrivial"] = sum(1 for x in pure if x["why"] != "seed") + len(edits)
     rep.cov["exhaustive"] = False
     rep.cov["rule"] = RULE
-    rep.assumptions += ["calls run on a thread with an 8 MiB stack (the Linux main-thread default); the time budget per call is 12 s",
+    rep.assumptions += ["calls run on a thread with an 8 MiB stack (the Linux main-thread default); the budget per call is 12 s of CPU time (wall-clock cap 300 s)",
                         "results are compared by a 64-bit digest of their Debug / Display / JSON rendering",
                         "size bounds: strings up to 70000 bytes, JSON nesting up to 200, HTML nesting up to 21800 (what fits in a 65535-byte event)"]
 
